@@ -322,7 +322,7 @@ func (a *Adversary) act() {
 		return
 	}
 	byz := a.byzIds[r.Intn(len(a.byzIds))]
-	switch r.Intn(24) {
+	switch r.Intn(25) {
 	case 0: // replay old traffic
 		if len(net.seen) > 0 {
 			s := net.seen[r.Intn(len(net.seen))]
@@ -654,9 +654,31 @@ func (a *Adversary) act() {
 				a.inject(n, a.mkVC(a.vcContent(byz, protocol.LEAN_HELIX_VIEW_CHANGE, inst, h, nv, nil), a.newBlock(h, r.Intn(2) == 0)), "vc-block-without-proof")
 			}
 		}
+	case 23: // NEW_VIEW by the book (genuine votes, genuine highest proof, proposal signed over the proven hash) but with ANOTHER block body attached
+		a.nvWrongBlock(h, v)
 	default: // mutate one aspect of a message seen on the wire and deliver it
 		a.mutate(target)
 	}
+}
+
+// nvWrongBlock: a Byzantine leader of view v or v+1 honours the lock in everything that is signed, but
+// attaches a different block (no signature covers the attached block; only its commitment to the signed hash binds it)
+func (a *Adversary) nvWrongBlock(h, v uint64) bool {
+	inst := a.net.w.Inst
+	for nv := v; nv <= v+1; nv++ {
+		if nv > 0 && a.isByz(a.leaderOf(nv)) {
+			ld := a.leaderOf(nv)
+			hash, blk, _ := a.highestSeenLock(h, nv)
+			if hash != nil && blk != nil {
+				votes := a.genuineVotes(h, nv, true, nil)
+				other := a.newBlock(h, false)
+				pp := a.ppContent(ld, protocol.LEAN_HELIX_PREPREPARE, inst, h, nv, hash)
+				a.toAll(a.mkNV(ld, protocol.LEAN_HELIX_NEW_VIEW, inst, h, nv, votes, pp, other), "nv-wrong-block")
+				return true
+			}
+		}
+	}
+	return false
 }
 
 // mutate takes a message from the wire, changes exactly one aspect, and delivers it.
